@@ -14,6 +14,7 @@
  *   P id rep                       pixman_image_set_repeat
  *   T id tx ty                     pixman_image_set_transform (integer translation)
  *   A id on                        pixman_image_set_component_alpha
+ *   M id a ax ay                   pixman_image_set_alpha_map (a = 0: detach)
  *   G id / U id                    pixman_image_ref / pixman_image_unref (the return value is logged)
  *   C op s m d sx sy mx my dx dy w h        (m = 0: no mask)
  *   B op d a r g b n x1 y1 x2 y2 ...        pixman_image_fill_boxes
@@ -187,6 +188,13 @@ main (int argc, char **argv)
 	    if (fscanf (in, "%d %d", &id, &on) != 2) return 3;
 	    pixman_image_set_component_alpha (imgs[id], on);
 	    vt_begin ("SetCA"); vt_int ("id", id); vt_bool ("on", on); vt_end ();
+	}
+	else if (kind[0] == 'M')
+	{
+	    int id, a, ax, ay;
+	    if (fscanf (in, "%d %d %d %d", &id, &a, &ax, &ay) != 4) return 3;
+	    pixman_image_set_alpha_map (imgs[id], a ? imgs[a] : NULL, (int16_t)ax, (int16_t)ay);
+	    vt_begin ("SetAlphaMap"); vt_int ("id", id); vt_int ("a", a); vt_int ("ax", ax); vt_int ("ay", ay); vt_end ();
 	}
 	else if (kind[0] == 'G')
 	{
